@@ -18,6 +18,7 @@ positive fixture (fixtures/lint_fixture.py) must match on every run.
 from __future__ import annotations
 
 import ast
+import re
 from typing import Iterable, List, Tuple
 
 from . import core
@@ -194,7 +195,112 @@ def l5_last_iteration_wins(fn) -> Iterable[Tuple[ast.AST, str]]:
     yield from scan(fn.body)
 
 
-LINTS = (("L5", l5_last_iteration_wins), ("L1", l1_unused_loop_var), ("L2", l2_stale_loop_state), ("L3", l3_per_iteration_accumulator), ("L4", l4_shared_visited_set))
+_INDEX_ATTR = re.compile(r"(^|_)index$")
+
+
+def l6_index_truthiness(fn) -> Iterable[Tuple[ast.AST, str]]:
+    """A position (``x.oneof_index``, ``s.find(..)``, ``l.index(..)``, or a local bound to one, possibly as ``p if c else None``)
+    used as a truth value: position 0 is a valid position, so the test silently excludes the first element."""
+    def source(e, names):
+        if isinstance(e, ast.IfExp):
+            arms = [a for a in (e.body, e.orelse) if not (isinstance(a, ast.Constant) and a.value is None)]
+            return len(arms) == 1 and source(arms[0], names)
+        if isinstance(e, ast.Attribute):
+            return bool(_INDEX_ATTR.search(e.attr))
+        if isinstance(e, ast.Call) and isinstance(e.func, ast.Attribute) and e.func.attr in ("index", "find", "rfind"):
+            return True
+        return isinstance(e, ast.Name) and e.id in names
+    names = set()
+    for _ in range(2):
+        for n in ast.walk(fn):
+            if isinstance(n, ast.Assign) and len(n.targets) == 1 and isinstance(n.targets[0], ast.Name) and source(n.value, names):
+                names.add(n.targets[0].id)
+            elif isinstance(n, ast.AnnAssign) and n.value is not None and isinstance(n.target, ast.Name) and source(n.value, names):
+                names.add(n.target.id)
+    # a name that is also bound to something else is not tracked
+    for n in ast.walk(fn):
+        if isinstance(n, ast.Assign) and len(n.targets) == 1 and isinstance(n.targets[0], ast.Name) and n.targets[0].id in names \
+                and not source(n.value, names):
+            names.discard(n.targets[0].id)
+
+    def truth_atoms(e):
+        if isinstance(e, ast.BoolOp):
+            for v in e.values:
+                yield from truth_atoms(v)
+        elif isinstance(e, ast.UnaryOp) and isinstance(e.op, ast.Not):
+            yield from truth_atoms(e.operand)
+        else:
+            yield e
+    for n in ast.walk(fn):
+        tests = []
+        if isinstance(n, (ast.If, ast.IfExp, ast.While, ast.Assert)):
+            tests.append(n.test)
+        elif isinstance(n, ast.comprehension):
+            tests.extend(n.ifs)
+        elif isinstance(n, ast.BoolOp) or (isinstance(n, ast.UnaryOp) and isinstance(n.op, ast.Not)):
+            tests.append(n)
+        for t in tests:
+            for a in truth_atoms(t):
+                if isinstance(a, (ast.Name, ast.Attribute, ast.Call)) and source(a, names) and not isinstance(a, ast.IfExp):
+                    yield a, (f"`{ast.unparse(a)}` is a position and is used as a truth value: position 0 (the first element) is treated "
+                              f"like 'absent'")
+                    return
+
+
+def l7_replace_matched_by_value(fn) -> Iterable[Tuple[ast.AST, str]]:
+    """``text.replace(part, new)`` where ``part`` is a named group / span of a regex match and ``text`` is the whole match (or the
+    searched string): the rewrite is by value, not by position, so every other occurrence of the same characters in ``text``
+    (the rest of the match, e.g. the template after the variable name) is rewritten too."""
+    def is_group(e, names, nonzero):
+        if isinstance(e, ast.Name) and e.id in names:
+            return True
+        if isinstance(e, ast.Call) and isinstance(e.func, ast.Attribute) and e.func.attr == "group":
+            whole = not e.args or (isinstance(e.args[0], ast.Constant) and e.args[0].value == 0)
+            return (not whole) if nonzero else whole
+        if isinstance(e, ast.Subscript) and isinstance(e.slice, ast.Constant) and not nonzero:
+            return e.slice.value == 0
+        return False
+    parts, wholes, searched = set(), set(), set()
+    for n in ast.walk(fn):
+        if isinstance(n, ast.Assign) and len(n.targets) == 1 and isinstance(n.targets[0], ast.Name):
+            if is_group(n.value, (), True):
+                parts.add(n.targets[0].id)
+            elif is_group(n.value, (), False):
+                wholes.add(n.targets[0].id)
+        if isinstance(n, ast.Call) and isinstance(n.func, ast.Attribute) and n.func.attr in ("finditer", "search", "match", "fullmatch", "sub") and n.args:
+            a = n.args[-1] if n.func.attr != "sub" or len(n.args) < 2 else n.args[1]
+            if isinstance(a, ast.Name):
+                searched.add(a.id)
+    for n in ast.walk(fn):
+        if (isinstance(n, ast.Call) and isinstance(n.func, ast.Attribute) and n.func.attr == "replace" and len(n.args) == 2 and not n.keywords
+                and is_group(n.args[0], parts, True)):
+            recv = n.func.value
+            if is_group(recv, wholes, False) or (isinstance(recv, ast.Attribute) and recv.attr == "string") or (isinstance(recv, ast.Name) and recv.id in searched):
+                yield n, (f"`{ast.unparse(n)[:80]}` rewrites every occurrence of the matched part inside the whole match / searched text, "
+                          f"not the matched span: equal characters elsewhere (the rest of the pattern) are rewritten as well")
+                return
+
+
+def l8_shared_mutable_fill(fn) -> Iterable[Tuple[ast.AST, str]]:
+    """``dict.fromkeys(keys, <mutable>)`` / ``[<mutable>] * n``: every key / position refers to the SAME dict, list or set, so a later
+    ``table[k][slot] = v`` (or append / add) written for one key shows up under all of them."""
+    def mutable(e):
+        if isinstance(e, (ast.Dict, ast.List, ast.Set, ast.DictComp, ast.ListComp, ast.SetComp)):
+            return True
+        return isinstance(e, ast.Call) and isinstance(e.func, ast.Name) and e.func.id in ("dict", "list", "set", "defaultdict", "OrderedDict")
+    for n in ast.walk(fn):
+        if isinstance(n, ast.Call) and isinstance(n.func, ast.Attribute) and n.func.attr == "fromkeys" and len(n.args) == 2 and mutable(n.args[1]):
+            yield n, (f"`{ast.unparse(n)[:90]}` gives every key the same {type(n.args[1]).__name__.lower()} object: an entry written for one key "
+                      f"is seen (and overwritten) under every other key")
+            return
+        if isinstance(n, ast.BinOp) and isinstance(n.op, ast.Mult):
+            for side in (n.left, n.right):
+                if isinstance(side, ast.List) and len(side.elts) == 1 and mutable(side.elts[0]):
+                    yield n, f"`{ast.unparse(n)[:90]}` repeats one mutable object: all positions alias it"
+                    return
+
+
+LINTS = (("L8", l8_shared_mutable_fill), ("L7", l7_replace_matched_by_value), ("L6", l6_index_truthiness), ("L5", l5_last_iteration_wins), ("L1", l1_unused_loop_var), ("L2", l2_stale_loop_state), ("L3", l3_per_iteration_accumulator), ("L4", l4_shared_visited_set))
 
 
 W, A = "gapic.schema.wrappers.", "gapic.schema.api."
@@ -311,7 +417,7 @@ def run_for(report):
 
 
 def run(report, pm, prefix_quals: Iterable[str], rule_id: str, what: str, floor: int = 3):
-    """Apply the four rules to every repository function whose qualified name starts with one of `prefix_quals`."""
+    """Apply the lint rules to every repository function whose qualified name starts with one of `prefix_quals`."""
     r = report.rule(rule_id, f"no loop-variable slip, stale or overwritten loop state, per-iteration accumulator or shared visited set in {what}", floor=floor)
     for e in prefix_quals:
         r.need(any(_matches(q, e) for q in pm.functions), e, "scope entry matches no function (renamed or removed mechanism: update vlib/lints.py SCOPES)")
@@ -330,5 +436,5 @@ def run(report, pm, prefix_quals: Iterable[str], rule_id: str, what: str, floor:
             for lid, fn in LINTS:
                 if list(fn(f)):
                     hits.add(lid)
-    r.need(hits == {"L1", "L2", "L3", "L4", "L5"}, "fixtures/lint_fixture.py", f"rules matching their positive fixture: {sorted(hits)}")
+    r.need(hits == {"L1", "L2", "L3", "L4", "L5", "L6", "L7", "L8"}, "fixtures/lint_fixture.py", f"rules matching their positive fixture: {sorted(hits)}")
     return r
